@@ -564,6 +564,8 @@ class Parser:
                 consolidated[-1].end_col_offset = p.end_col_offset
             else:
                 consolidated.append(p)
+        if seen_joined:  # an empty literal contributes nothing to a joined string (as in CPython)
+            consolidated = [p for p in consolidated if not (isinstance(p, ast.Constant) and p.value == "")]
 
         if not seen_joined and len(values) == 1 and isinstance(values[0], ast.Constant):
             node: ast.Constant | ast.JoinedStr | ast.Call = values[0]
